@@ -351,6 +351,20 @@ func (m *Map) Get(field string) Object {
 type List struct {
 	Value []Object
 	dirty bool
+	// appended holds the elements an update assigned to positions past the end of the list. They
+	// join the list, ordered by position, when the update is complete (see Compact): until then
+	// every index of the update refers to the list as it was before the update
+	appended []listElement
+}
+
+type listElement struct {
+	position int64
+	value    Object
+}
+
+// Append schedules the value to be added at the end of the list, see Compact
+func (l *List) Append(position int64, value Object) {
+	l.appended = append(l.appended, listElement{position: position, value: value})
 }
 
 // Inspect returns the readable value of the object
@@ -398,9 +412,9 @@ func (l *List) Remove(pos int64) Object {
 	return UNDEFINED
 }
 
-// Compact removes nil elements from the list
+// Compact removes nil elements from the list and adds the appended ones, ordered by position
 func (l *List) Compact() {
-	copy := make([]Object, 0, len(l.Value))
+	copy := make([]Object, 0, len(l.Value)+len(l.appended))
 
 	for _, obj := range l.Value {
 		if obj == nil {
@@ -410,7 +424,16 @@ func (l *List) Compact() {
 		copy = append(copy, obj)
 	}
 
+	sort.SliceStable(l.appended, func(i, j int) bool {
+		return l.appended[i].position < l.appended[j].position
+	})
+
+	for _, element := range l.appended {
+		copy = append(copy, element.value)
+	}
+
 	l.Value = copy
+	l.appended = nil
 	l.dirty = false
 }
 
